@@ -84,6 +84,10 @@ class Ref:
         self.live = None
 
 
+def _noop(*a, **k):
+    return None
+
+
 def apply(real, ref, ev):
     """Apply one event to the real object and the reference model.
 
@@ -110,7 +114,7 @@ def apply(real, ref, ev):
         ref.add(ev[1])
     elif kind == "fin":
         # state.update_evidence needs logW etc; not part of this property
-        real.state.update_evidence = lambda *a, **k: None
+        real.state.update_evidence = _noop
         real.finalise()
         ref.finalise()
     else:
@@ -118,7 +122,20 @@ def apply(real, ref, ev):
     return None, None
 
 
-def build(mode, hist):
+def roundtrip(real):
+    """Pickle round trip of the store (what a checkpoint / resume does to it).  The density table is
+    not pickled unless save_log_q is set - the sampler re-derives it in the stored order - so it is
+    carried over by hand."""
+    import pickle
+
+    log_q = real.log_q
+    new = pickle.loads(pickle.dumps(real))
+    if getattr(new, "log_q", None) is None and log_q is not None:
+        new.log_q = log_q.copy()
+    return new
+
+
+def build(mode, hist, pickled=False):
     from nessai.samplers.importancesampler import OrderedSamples
 
     real = OrderedSamples(strict_threshold=mode[0], replace_all=mode[1])
@@ -126,6 +143,8 @@ def build(mode, hist):
     rets = None
     for ev in hist:
         rets = apply(real, ref, ev)
+        if pickled and ev[0] != "fin":
+            real = roundtrip(real)
     return real, ref, rets
 
 
@@ -260,12 +279,12 @@ def expand(item):
     bi, (mode, cfg), hists = item
     out = []
     for hist in hists:
-        real, ref, _ = build(mode, hist)
+        real, ref, _ = build(mode, hist, cfg.get("pickled", False))
         succs = []
         for ev in enabled(mode, real, ref, cfg):
             h2 = list(hist) + [ev]
             try:
-                r2, m2, rets = build(mode, h2)
+                r2, m2, rets = build(mode, h2, cfg.get("pickled", False))
             except Exception as e:  # the store raised inside its contract
                 name = f"raises-{type(e).__name__}"
                 succs.append(
@@ -326,6 +345,8 @@ def long_history_worker(item):
                 ev = ("add", vals)
             rets = apply(real, ref, ev)
             hist.append(ev)
+            if len(hist) % 7 == 0:
+                real = roundtrip(real)
             bad = invariant_fast(real, ref, rets, ev)
             if bad:
                 return dict(n=len(hist), viol=(vkey(mode, bad, ev) + ":long", f"clause '{bad}' broken at event {len(hist)} of a long history (mode {mode}, seed {seed}, index {idx})", {"mode": mode, "long": [seed, idx, length, max_batch]}))
@@ -411,6 +432,13 @@ def run(ctx):
         tot_trans += r["transitions"] + len(roots)
         outcomes |= r["outcomes"]
         maxd = max(maxd, r["max_depth"] + 1)
+        # the same exploration with a pickle round trip of the store after every event (a checkpoint /
+        # resume between any two operations), one level shallower
+        rp = explore.bfs(ctx, roots, expand, depth - 2, chunk=48, extra=(mode, dict(cfg, pickled=True)))
+        tot_states += rp["states"]
+        tot_trans += rp["transitions"]
+        outcomes |= rp["outcomes"]
+        ctx.count("transitions_with_a_pickle_round_trip", rp["transitions"])
         if r["longest"]:
             ctx.sample({"mode": mode, "longest_word": r["longest"]})
         ctx.sample({"mode": mode, "shortest_word": r["shortest"][0] if r["shortest"] else None})
